@@ -692,6 +692,64 @@ def r9_cascade_exemptions(ctx: Context) -> None:
                   "that lost its inputs (e.g. a SCHEDULED task of the branch not taken) stays alive with its pending placement and runs")
 
 
+def remaining_time_table(ctx: Context, rule: str) -> None:
+    """Task.remaining_time per state (partial evaluation of its state dispatch for every TaskState member)."""
+    ctx.rule(rule, "Task.remaining_time, evaluated for every TaskState member: zero for COMPLETED/CANCELLED, the task's own remaining "
+                   "time (decided strategy minus progress) for SCHEDULED/RUNNING/PREEMPTED/EVICTED, the slowest strategy's runtime only "
+                   "while no decision exists (VIRTUAL/RELEASED)")
+    interp, task_cls, _w = task_interp(ctx.repo)
+    fn = methods(task_cls).get("remaining_time")
+    if fn is None:
+        raise AnalysisError("Task.remaining_time not found")
+    ctx.analysed_function(f"{TASKS}::Task.remaining_time")
+    want = {"COMPLETED": "zero", "CANCELLED": "zero", "SCHEDULED": "own", "RUNNING": "own", "PREEMPTED": "own", "EVICTED": "own",
+            "VIRTUAL": "slowest", "RELEASED": "slowest"}
+
+    def classify(e):
+        from .. import lin
+        t = norm(e)
+        if is_self_attr(e, "_remaining_time"):
+            return "own"
+        if "get_slowest_strategy" in t and t.endswith(".runtime"):
+            return "slowest"
+        try:
+            l = lin.lin_of(e)
+            if l.is_const() and l.const == 0:
+                return "zero"
+        except Exception:
+            pass
+        return f"`{t[:40]}`"
+
+    def walk(stmts, state):
+        for st in stmts:
+            if isinstance(st, ast.Return):
+                return classify(st.value) if st.value is not None else "None"
+            if isinstance(st, ast.If):
+                v = interp.ev(st.test, {"_state": state, "_pre_scheduling_state": "VIRTUAL"})
+                if v == ("bool", True):
+                    r = walk(st.body, state)
+                elif v == ("bool", False):
+                    r = walk(st.orelse, state)
+                else:
+                    raise AnalysisError(f"Task.remaining_time: `{norm(st.test)[:60]}` does not only depend on the state")
+                if r is not None:
+                    return r
+            elif isinstance(st, ast.Expr) and isinstance(st.value, ast.Constant):
+                continue
+            elif isinstance(st, (ast.Assign, ast.Expr)):
+                continue
+            else:
+                raise AnalysisError(f"Task.remaining_time: statement `{norm(st)[:50]}` not recognised")
+        return None
+    for s in interp.members:
+        if s not in want:
+            continue
+        got = walk(fn.body, s)
+        ctx.check(got == want[s], rule, f"Task.remaining_time|{s}", loc(fn), f"{s} -> {want[s]}",
+                  f"a {s} task reports {got} as its remaining time (expected: {want[s]}): slack, completion estimates and the next "
+                  "scheduler time are computed from the wrong amount of work")
+
+
 def run(ctx: Context) -> None:
     ctx.isolate(r1_who_may_write)
     ctx.isolate(r2_r3_r4_relation)
@@ -702,3 +760,6 @@ def run(ctx: Context) -> None:
     ctx.isolate(r9_cascade_exemptions)
     from . import c17
     ctx.isolate(c17.r1_worklist, _alias={"C17.R1": "C06.R10"})
+    from . import c07
+    ctx.isolate(c07.r1_one_of_n, _alias={"C07.R1": "C06.R12"})
+    ctx.isolate(c17.cache_coherence, "C06.R13", ("TaskGraph", "Task"), "the sink set behind is_complete / is_cancelled must follow the graph", 2)
